@@ -77,6 +77,7 @@ type Job struct {
 
 	isVirgin   bool // it should be set to false if job hits isDone=true at the first time
 	isDone     bool
+	isDeleted  bool // set under mu by deleteJobAndUnlock: the file is closed and the job is no longer in jp.jobs
 	shouldSkip atomic.Bool
 
 	// offsets is a sliceMap of streamName to offset.
@@ -375,8 +376,13 @@ func (jp *jobProvider) refreshFile(stat os.FileInfo, filename string, symlink st
 			jp.checkFileWasTruncated(job, stat.Size())
 		}
 		job.mu.Lock()
-		jp.tryResumeJobAndUnlock(job, filename)
-		return
+		if !job.isDeleted {
+			jp.tryResumeJobAndUnlock(job, filename)
+			return
+		}
+		// the maintenance deleted this job (and closed its file) after we looked it up: a resumed deleted job would be
+		// read through the closed file and end the process; treat the file as a new one instead
+		job.mu.Unlock()
 	}
 
 	file, err := os.Open(filename)
@@ -820,6 +826,7 @@ func (jp *jobProvider) deleteJobAndUnlock(job *Job) {
 	}
 	sourceID := job.sourceID
 	filename := job.filename
+	job.isDeleted = true
 	job.mu.Unlock()
 
 	jp.jobsMu.Lock()
